@@ -1,5 +1,6 @@
 import Bluge.Numeric
 import Bluge.C07.Query
+import Bluge.C07.Postings
 /-! Model driver for C07 (line protocol, see go/harness/hlib and go/harness/c07).
 
 Per case it keeps the abstract index (live analysed documents with their doc numbers, one batch =
@@ -46,6 +47,10 @@ partial def parseSExp : List String → Option (SExp × List String)
 def atoms (xs : List SExp) : List String := xs.filterMap fun | .atom a => some a | _ => none
 
 /-! ### the abstract index -/
+/-- the physical layout of the snapshot the queries run on, as printed by the harness (`snap` line):
+per segment its offset, its size and the stored ids of its local documents with their deleted marks -/
+abbrev Layout := List (Nat × Nat × List (String × Bool))
+
 structure DState where
   /-- every document ever inserted: (doc number, doc, live?) in doc-number order -/
   docs : List (Nat × Doc × Bool)
@@ -53,17 +58,57 @@ structure DState where
   /-- pending batch: ids to delete, documents to add -/
   pendDel : List String
   pendAdd : List Doc
+  /-- layout of the current reader's snapshot (`none` until its `snap` line was seen) -/
+  layout : Option Layout := none
 deriving Inhabited
 
-def DState.empty : DState := ⟨[], 0, [], []⟩
+def DState.empty : DState := ⟨[], 0, [], [], none⟩
 
 def DState.flush (s : DState) : DState :=
   if s.pendDel.isEmpty && s.pendAdd.isEmpty then s else
   let docs := s.docs.map fun (n, d, live) => (n, d, live && !s.pendDel.contains d.id)
   let adds := s.pendAdd.reverse.zipIdx.map fun (d, i) => (s.next + i, d, true)
-  { docs := docs ++ adds, next := s.next + adds.length, pendDel := [], pendAdd := [] }
+  { docs := docs ++ adds, next := s.next + adds.length, pendDel := [], pendAdd := [], layout := none }
 
-def DState.index (s : DState) : Index := s.docs.filterMap fun (n, d, live) => if live then some (n, d) else none
+/-- the live documents in the model's own numbering (insertion order) -/
+def DState.indexOwn (s : DState) : Index := s.docs.filterMap fun (n, d, live) => if live then some (n, d) else none
+
+/-- the snapshot layout as (offset, size) pairs -/
+def layoutSn (l : Layout) : SnapLayout := l.map fun (off, size, _) => (off, size)
+
+/-- the live documents with the REAL global doc numbers of the reader's snapshot (`offset + local`) -/
+def DState.indexOf (s : DState) (l : Layout) : Index :=
+  let live := s.indexOwn
+  l.flatMap fun (off, _, ids) =>
+    ids.zipIdx.filterMap fun ((id, deleted), i) =>
+      if deleted then none else
+      match live.find? (fun e => e.2.id == id) with
+      | some e => some (off + i, e.2)
+      | none => none
+
+def DState.index (s : DState) : Index :=
+  match s.layout with
+  | some l => s.indexOf l
+  | none => s.indexOwn
+
+/-- first unused doc number -/
+def DState.bound (s : DState) : Nat :=
+  match s.layout with
+  | some l => (layoutSn l).total
+  | none => s.next
+
+def parseLayout (impl : String) : Option Layout :=
+  if impl == "-" then some [] else
+  (impl.splitOn " ").mapM fun tok =>
+    match tok.splitOn ":" with
+    | [o, sz, ids] =>
+      match o.toNat?, sz.toNat? with
+      | some off, some size =>
+        let idl := if ids.isEmpty then [] else (ids.splitOn ",").map fun x =>
+          if x.endsWith "*" then ((x.dropRight 1), true) else (x, false)
+        some (off, size, idl)
+      | _, _ => none
+    | _ => none
 
 def parseBits (s : String) : Option Float := (parse64 s).map fun b => Float.ofBits b.toNat.toUInt64
 
@@ -256,16 +301,21 @@ partial def repairQ (tr mws : Bool) : Query → Query
   | q => q
 
 /-- ids produced by the modelled searcher machines for `q` (mode `none`: after the unadorned rewrites) -/
-def modelFor (idx : Index) (bound : Nat) (mode : String) (keepMin : Bool) (q : Query) : String × Plan :=
+def modelFor (sn : Option SnapLayout) (idx : Index) (bound : Nat) (mode : String) (keepMin : Bool) (q : Query) : String × Plan :=
   let plan0 := compile idx q
   let plan := if mode == "none" then (plan0.rewriteNone ⟨keepMin⟩ bound).1 else plan0
-  (showIds idx (plan.run bound (Plan.width plan)), plan)
+  match sn with
+  | some sn =>
+    -- the searcher tree over the per-segment postings iterators of the reader's snapshot
+    (showIds idx (plan.runSeg sn (Plan.width plan)), plan)
+  | none => (showIds idx (plan.run bound (Plan.width plan)), plan)
 
 /-- the behaviours the driver accepts as "the implementation as modelled": the pinned tree, or a tree on
 which some of the four reported defects have been repaired (each repair = the documented meaning on that
 shape). Returns the first variant that reproduces `impl`, with its name. -/
-def chooseVariant (idx : Index) (bound : Nat) (mode : String) (q : Query) (outcome : Outcome) (impl : String) :
+def chooseVariant (sn : Option SnapLayout) (idx : Index) (bound : Nat) (mode : String) (q : Query) (outcome : Outcome) (impl : String) :
     String × Plan × String :=
+  let modelFor := modelFor sn
   let pinned := if outcome == .panic then ("panic", Plan.leaf .postings []) else modelFor idx bound mode false q
   if pinned.1 == impl then (pinned.1, pinned.2, "") else
   let combos : List (Bool × Bool × Bool) :=
@@ -296,17 +346,26 @@ def runQuery (st : DState) (mode : String) (e : SExp) (impl0 : String) : String 
   | none => "bad-op" ++ sep ++ "na"
   | some (q, outcome) =>
     let idx := st.index
-    let bound := st.next
+    let bound := st.bound
+    let sn := st.layout.map layoutSn
+    let modelFor := modelFor sn
     match outcome with
     | .err => "err" ++ sep ++ "ok br=expect-err"
     | _ =>
       let spec := showIds idx (denote idx q)
-      let (model, plan, variant) := chooseVariant idx bound mode q outcome impl
+      let (model, plan, variant) := chooseVariant sn idx bound mode q outcome impl
       let kinds := (planKinds plan).eraseDups
-      let br := " br=" ++ ",".intercalate (kinds ++ (if q.WF then [] else ["not-wf"]) ++
+      -- the abstract-leaf tree and the per-segment tree must agree (plan_exact / plan_exact_seg)
+      let agree := match sn with
+        | some _ => showIds idx (plan.run bound (Plan.width plan)) == model
+        | none => true
+      let br := " br=" ++ ",".intercalate (kinds ++ (if sn.isSome then ["seg-machine"] else ["no-layout"]) ++
+                  (if agree then [] else ["MODEL-LEAVES-DISAGREE"]) ++ (if q.WF then [] else ["not-wf"]) ++
                   (if outcome == .panic then ["expect-panic"] else []) ++ (if variant.isEmpty then [] else [variant]))
       let plan0 := compile idx q
-      if !plan0.okB bound (Plan.width plan0) then
+      if !agree then
+        "model-leaves-disagree" ++ sep ++ "bad:model-abstract-and-segment-leaves-disagree" ++ br
+      else if !plan0.okB bound (Plan.width plan0) then
         -- hypothesis of C07_exact_partial / plan_exact, evaluated on every query
         model ++ sep ++ "bad:assumption-plan-okB" ++ br
       else if impl == spec then
@@ -333,10 +392,330 @@ def runQuery (st : DState) (mode : String) (e : SExp) (impl0 : String) : String 
         model ++ sep ++ why ++ " expected=[" ++ spec ++ "] missed=[" ++ " ".intercalate missed ++ "] extra=[" ++ " ".intercalate extra ++ "]" ++
           (if dup then " duplicate" else "") ++ br
 
+/-! ### node-level replay of the real searcher tree (`trace` lines)
+
+The harness rebuilt the searcher tree of the query on the reader's snapshot, wrapped every node in a
+logging `search.Searcher` and drove it with the real collector. Each node is replayed here IN ISOLATION on
+the corresponding transcribed machine: a composite gets scripted children that answer exactly what the
+real children answered (and flag any call the real node did not make, or made differently); a leaf is
+replayed on the `PIter` machine over the snapshot layout. -/
+
+/-- a node of the real tree: pre-order id, kind, detail atoms, children (`none` = absent boolean clause) -/
+inductive TNode where
+  | mk (id : Nat) (kind : String) (args : List String) (kids : List (Option TNode))
+deriving Inhabited
+
+def TNode.id : TNode → Nat | .mk i _ _ _ => i
+def TNode.kind : TNode → String | .mk _ k _ _ => k
+def TNode.args : TNode → List String | .mk _ _ a _ => a
+def TNode.kids : TNode → List (Option TNode) | .mk _ _ _ k => k
+
+/-- s-expression → tree with pre-order ids; returns the next free id -/
+partial def toTNode (e : SExp) (next : Nat) : Option (TNode × Nat) :=
+  match e with
+  | .list (.atom kind :: rest) =>
+    let args := rest.filterMap fun | .atom a => some a | _ => none
+    let step (acc : Option (List (Option TNode) × Nat)) (x : SExp) : Option (List (Option TNode) × Nat) :=
+      match acc with
+      | none => none
+      | some (ks, n) =>
+        match x with
+        | .atom "-" => if kind == "bool" then some (ks ++ [none], n) else some (ks, n)
+        | .atom _ => some (ks, n)
+        | .list _ => match toTNode x n with
+          | some (k, n') => some (ks ++ [some k], n')
+          | none => none
+    match rest.foldl step (some ([], next + 1)) with
+    | some (ks, n) =>
+      -- a bool node prints its three clauses positionally (`-` = absent); other kinds only have list children
+      let args := if kind == "bool" then [] else args
+      some (.mk next kind args ks, n)
+    | none => none
+  | _ => none
+
+partial def TNode.all (t : TNode) : List TNode :=
+  t :: t.kids.flatMap fun | some k => k.all | none => []
+
+def parseAns (s : String) : Option Resp :=
+  if s == "-" then some none else (s.toNat?).map some
+
+/-- `N>5`, `A7>9`, `N>-` -/
+def parseEv (s : String) : Option (Call × Resp) :=
+  match s.splitOn ">" with
+  | [c, a] =>
+    match parseAns a with
+    | none => none
+    | some r =>
+      if c == "N" then some (.next, r)
+      else if c.startsWith "A" then ((c.drop 1).toString.toNat?).map fun n => (.adv n, r)
+      else none
+  | _ => none
+
+def parseEvents (s : String) : Option (List (Nat × List (Call × Resp))) :=
+  (s.splitOn ";").mapM fun part =>
+    match part.splitOn ":" with
+    | [i, evs] =>
+      match i.toNat? with
+      | none => none
+      | some id =>
+        if evs.isEmpty then some (id, []) else
+        ((evs.splitOn ",").mapM parseEv).map fun l => (id, l)
+    | _ => none
+
+/-- a child that answers what the real child answered -/
+structure Script where
+  log : List (Call × Resp)
+  bad : Bool := false
+deriving Inhabited
+
+def Script.step (k : Script) (c : Call) : Resp × Script :=
+  match k.log with
+  | (c', r) :: rest => if c == c' then (r, { k with log := rest }) else (none, { log := [], bad := true })
+  | [] => (none, { k with bad := true })
+
+def Script.done (k : Script) : Bool := !k.bad && k.log.isEmpty
+
+/-- feed the recorded calls of a node to its model machine; the first answer that differs is
+`some (call index, model answer, real answer)` -/
+def replayCalls {σ : Type} (step : σ → Call → Resp × σ) : σ → List (Call × Resp) → Nat → Option (Nat × Resp × Resp) × σ
+  | s, [], _ => (none, s)
+  | s, (c, r) :: rest, i =>
+    let (m, s') := step s c
+    if m == r then replayCalls step s' rest (i + 1) else (some (i, m, r), s')
+
+def showResp : Resp → String | none => "-" | some d => toString d
+
+/-- `Min()` of a real node -/
+partial def TNode.minOf (t : TNode) : Nat :=
+  match t.kind with
+  | "disjS" | "disjH" | "min" => (t.args.headD "0").toNat!
+  | "filt" => match t.kids with | [some k] => k.minOf | _ => 0
+  | _ => 0
+
+def answersOf (evs : List (Call × Resp)) : List Nat := (evs.filterMap (·.2)).eraseDups
+
+/-- per-segment contents of an unadorned leaf: `b1,2` bitmap, `h5` 1-hit, `e` empty -/
+def parseSegIt (s : String) : Option (List Nat × SegIt) :=
+  if s == "e" then some ([], .list [])
+  else if s.startsWith "h" then ((s.drop 1).toString.toNat?).map fun d => ([d], .oneHit (some d))
+  else if s.startsWith "b" then
+    let body := (s.drop 1).toString
+    if body.isEmpty then some ([], .list []) else
+    ((body.splitOn ",").mapM (fun (x : String) => x.toNat?)).map fun l => (l, SegIt.list l)
+  else none
+
+structure ReplayCtx where
+  sn : SnapLayout
+  idx : Index
+  bound : Nat
+  events : List (Nat × List (Call × Resp))
+
+def ReplayCtx.evs (c : ReplayCtx) (id : Nat) : List (Call × Resp) :=
+  match c.events.find? (·.1 == id) with | some e => e.2 | none => []
+
+def kidScripts (c : ReplayCtx) (kids : List (Option TNode)) : List Script :=
+  kids.filterMap fun | some k => some { log := c.evs k.id } | none => none
+
+/-- replay ONE node; `none` = consistent. Second component: branches. -/
+def replayNode (c : ReplayCtx) (t : TNode) : Option String × List String :=
+  let evs := c.evs t.id
+  let kids := kidScripts c t.kids
+  let fuel := (c.bound + 2) * (2 * kids.length + 4)
+  let report (what : String) (r : Option (Nat × Resp × Resp)) (kidsDone : Bool) : Option String :=
+    match r with
+    | some (i, m, real) => some s!"node={t.id} kind={what} call#{i} model={showResp m} real={showResp real}"
+    | none => if kidsDone then none else some s!"node={t.id} kind={what} children-called-differently"
+  match t.kind with
+  | "conj" =>
+    let (r, s) := replayCalls (Conj.step Script.step fuel) (Conj.mk' kids) evs 0
+    (report "conj" r (s.kids.all (·.done)), ["replay-conj"])
+  | "disjS" =>
+    let (r, s) := replayCalls (DisjS.step Script.step fuel) (DisjS.mk' kids t.minOf) evs 0
+    (report "disjS" r (s.kids.all (·.done)),
+      ["replay-disjS"] ++ (if heapTakeover < kids.length then ["WRONG-DISJUNCTION-KIND"] else []))
+  | "disjH" =>
+    let (r, s) := replayCalls (DisjH.step Script.step fuel) (DisjH.mk' kids t.minOf) evs 0
+    (report "disjH" r (s.kids.all (·.done)),
+      ["replay-disjH"] ++ (if heapTakeover < kids.length then [] else ["WRONG-DISJUNCTION-KIND"]))
+  | "bool" =>
+    match t.kids with
+    | [m, sh, n] =>
+      let sc (k : Option TNode) : Option Script := k.map fun k => { log := c.evs k.id }
+      let smin := match sh with | some k => k.minOf | none => 0
+      let (r, s) := replayCalls (BoolS.step Script.step fuel) (BoolS.mk' (sc m) (sc sh) (sc n) smin) evs 0
+      let dn (k : Option Script) : Bool := match k with | some k => k.done | none => true
+      (report "bool" r (dn s.must && dn s.should && dn s.mustNot), ["replay-bool"])
+    | _ => (some s!"node={t.id} bool-without-three-clauses", [])
+  | "filt" =>
+    match kids with
+    | [k] =>
+      let acc := answersOf evs
+      -- branch: an Advance whose target the filter rejected, with the child's next candidate rejected too
+      let rec walk (s : Filt Script) (es : List (Call × Resp)) (i : Nat) (brs : List String) :
+          Option (Nat × Resp × Resp) × Filt Script × List String :=
+        match es with
+        | [] => (none, s, brs)
+        | (cl, r) :: rest =>
+          let before := s.kid.log.length
+          let (m, s') := Filt.step Script.step fuel s cl
+          let used := before - s'.kid.log.length
+          let brs := match cl with
+            | .adv _ => brs ++ ["replay-filt-advance"] ++ (if used ≥ 2 then ["replay-filt-advance-target-rejected"] else []) ++
+                (if used ≥ 3 then ["replay-filt-advance-rejected-then-next-rejected"] else [])
+            | .next => brs
+          if m == r then walk s' rest (i + 1) brs else (some (i, m, r), s', brs)
+      let (r, s, brs) := walk ⟨k, acc⟩ evs 0 []
+      (report "filt" r s.kid.done, ["replay-filt"] ++ brs.eraseDups)
+    | _ => (some s!"node={t.id} filt-without-child", [])
+  | "phrase" =>
+    match kids with
+    | [k] =>
+      let (r, s) := replayCalls (PhraseS.step Script.step fuel) (PhraseS.mk' k (answersOf evs)) evs 0
+      (report "phrase" r s.must.done, ["replay-phrase"])
+    | _ => (some s!"node={t.id} phrase-without-child", [])
+  | "min" =>
+    -- `minSearcher` embeds the searcher it wraps: every call goes straight through
+    match kids with
+    | [k] => (if k.log == evs then none else some s!"node={t.id} kind=min child-log-differs", ["replay-min"])
+    | _ => (some s!"node={t.id} min-without-child", [])
+  | "none" =>
+    (if evs.all (fun e => e.2.isNone) then none else some s!"node={t.id} kind=none answered-a-document", ["replay-none"])
+  | "all" =>
+    let (r, _) := replayCalls PIter.step (PIter.mk' c.sn .all (allDocs c.idx)) evs 0
+    (report "all" r true, ["replay-leaf-all"])
+  | "term" =>
+    match t.args with
+    | "p" :: f :: term :: segsS =>
+      if (f == "t" || f == "u" || f == "k") && !term.startsWith "x" then
+        -- the iterator starts from what its per-segment iterators REALLY hold (the push-down conjunction
+        -- optimisation may have narrowed them); a restart goes back to the term's own postings
+        let own := post c.idx f term
+        match segsS.mapM parseSegIt with
+        | some its =>
+          if its.length != c.sn.length then (some s!"node={t.id} postings-leaf-segment-count", []) else
+          let segs : List PSeg := (c.sn.zip its).map fun (e, x) => { off := e.1, fresh := localsOf own e.1 e.2, it := x.2 }
+          let narrowed := segs.any fun g => g.it.toList != g.fresh
+          let sound := segs.all fun g => g.it.toList.all (fun y => g.fresh.contains y)
+          if !sound then (some s!"node={t.id} kind=term per-segment-iterator-holds-a-document-that-is-not-a-live-posting-of-{term}", []) else
+          let m : PIter := { kind := .postings, segs := segs, segOff := 0, started := false, curr := 0 }
+          let (r, _) := replayCalls PIter.step m evs 0
+          (report "term" r true, ["replay-leaf-postings"] ++ (if narrowed then ["leaf-narrowed"] else []) ++
+            (if its.any (fun x => match x.2 with | .oneHit _ => true | _ => false) then ["replay-leaf-postings-1hit"] else []) ++
+            (if evs.any (fun e => match e.1 with | .adv _ => true | .next => false) then ["replay-leaf-postings-advance"] else []))
+        | none => (none, ["replay-leaf-skipped"])
+      else (none, ["replay-leaf-skipped"])
+    | "a" :: _ =>
+      let (r, _) := replayCalls PIter.step (PIter.mk' c.sn .all (allDocs c.idx)) evs 0
+      (report "term-all" r true, ["replay-leaf-all"])
+    | "u" :: _ :: _ :: segsS =>
+      match segsS.mapM parseSegIt with
+      | some its =>
+        if its.length != c.sn.length then (some s!"node={t.id} unadorned-leaf-segment-count", []) else
+        let segs : List PSeg := (c.sn.zip its).map fun (e, x) => { off := e.1, fresh := x.1, it := x.2 }
+        let m : PIter := { kind := .unadorned, segs := segs, segOff := 0, started := false, curr := 0 }
+        let (r, _) := replayCalls PIter.step m evs 0
+        (report "term-unadorned" r true, ["replay-leaf-unadorned"] ++
+          (if its.any (fun x => match x.2 with | .oneHit _ => true | _ => false) then ["replay-leaf-unadorned-1hit"] else []))
+      | none => (none, ["replay-leaf-skipped"])
+    | _ => (none, ["replay-leaf-skipped"])
+  | _ => (none, ["replay-other-kind"])
+
+/-- the text-term leaves among the children of a node: (node, own postings, per-segment contents) -/
+def textLeaf (c : ReplayCtx) (t : TNode) : Option (TNode × List Nat × List (List Nat)) :=
+  match t.kind, t.args with
+  | "term", "p" :: f :: term :: segsS =>
+    if (f == "t" || f == "u" || f == "k") && !term.startsWith "x" then
+      match segsS.mapM parseSegIt with
+      | some its => some (t, post c.idx f term, its.map (fun x => x.2.toList))
+      | none => none
+    else none
+  | _, _ => none
+
+/-- the push-down conjunction optimisation (index/optimize.go `optimizeConjunction.Finish`) replaces the
+per-segment bitmaps of the term searchers of an all-term conjunction by their AND. Checked on the real
+contents: a narrowed leaf occurs only directly under a conjunction, and what it still holds contains
+every document that all the conjunction's text-term children have (nothing the conjunction needs is lost). -/
+def narrowingErrors (c : ReplayCtx) (t : TNode) : List String :=
+  let kids := t.kids.filterMap id
+  let leaves := kids.filterMap (textLeaf c)
+  let isNarrowed (l : TNode × List Nat × List (List Nat)) : Bool :=
+    (c.sn.zip l.2.2).any fun (e, have_) => have_ != localsOf l.2.1 e.1 e.2
+  if t.kind == "conj" then
+    if leaves.length != kids.length then [] else
+    -- per segment: the intersection of the own postings must survive in every child
+    let inter : List Nat := match leaves with
+      | [] => []
+      | l :: ls => l.2.1.filter fun x => ls.all (fun m => m.2.1.contains x)
+    leaves.filterMap fun l =>
+      let ok := (c.sn.zip l.2.2).all fun (e, have_) => (localsOf inter e.1 e.2).all (fun y => have_.contains y)
+      if ok then none else some s!"node={l.1.id} conjunction-push-down-lost-a-common-document"
+  else
+    leaves.filterMap fun l =>
+      if isNarrowed l then some s!"node={l.1.id} postings-leaf-narrowed-outside-a-conjunction" else none
+
+def traceStep (st : DState) (impl : String) : String :=
+  match st.layout with
+  | none => impl ++ sep ++ "na br=replay-no-layout"
+  | some l =>
+    match impl.splitOn " @ " with
+    | [treeS, evS, numsS] =>
+      match parseSExp (tokenize treeS), parseEvents evS with
+      | some (e, []), some events =>
+        match toTNode e 0 with
+        | some (root, _) =>
+          let c : ReplayCtx := { sn := layoutSn l, idx := st.index, bound := st.bound, events := events }
+          let results := root.all.map (replayNode c)
+          let errs := results.filterMap (·.1) ++ root.all.flatMap (narrowingErrors c)
+          let brs := (results.flatMap (·.2)).eraseDups
+          -- the documents the collector received are the answers of the root
+          let top := (c.evs 0).filterMap (·.2)
+          let nums := if numsS == "-" then [] else (numsS.splitOn ",").filterMap (·.toNat?)
+          let topOk := sortNat top == sortNat nums
+          let br := " br=" ++ ",".intercalate (["replay"] ++ brs)
+          if brs.contains "WRONG-DISJUNCTION-KIND" then
+            "disjunction-kind-differs-from-takeover-constant" ++ sep ++ "bad:disjunction-slice-heap-switch" ++ br
+          else match errs with
+          | e :: _ => "replay-mismatch " ++ e ++ sep ++ "bad:node-replay " ++ e ++ br
+          | [] =>
+            if !topOk then "replay-top-differs" ++ sep ++ "bad:node-replay top-level answers differ from the collected documents" ++ br
+            else impl ++ sep ++ "ok" ++ br
+        | none => impl ++ sep ++ "na br=replay-unparsed"
+      | _, _ => impl ++ sep ++ "na br=replay-unparsed"
+    | _ => impl ++ sep ++ "na br=replay-not-traced"
+where
+  sortNat (xs : List Nat) : List Nat := xs.foldl (fun acc x => ins x acc) []
+  ins (x : Nat) : List Nat → List Nat
+    | [] => [x]
+    | y :: ys => if x ≤ y then x :: y :: ys else y :: ins x ys
+
+/-- the `snap` line: the real `Snapshot.offsets`, segment sizes (`FullSize`), stored ids and deleted marks.
+Evaluates the hypothesis `offsetsOK` of `plan_exact_seg` / `postings_exact` on the real snapshot and ties
+the model's abstract index to the physical layout (same live ids). -/
+def snapStep (st : DState) (impl : String) : DState × String :=
+  let st := st.flush
+  match parseLayout impl with
+  | none => (st, impl ++ sep ++ "bad:assumption-layout snapshot-not-readable")
+  | some l =>
+    let sn := layoutSn l
+    let sizesOk := l.all fun (_, size, ids) => ids.length == size
+    let liveIds := sortStrings (l.flatMap fun (_, _, ids) => ids.filterMap fun (id, del) => if del then none else some id)
+    let ownIds := sortStrings (st.indexOwn.map (·.2.id))
+    if !(offsetsOK 0 sn && sizesOk) then
+      (st, impl ++ sep ++ "bad:assumption-offsets offsets-are-not-the-running-sums-of-the-segment-sizes")
+    else if liveIds != ownIds then
+      (st, impl ++ sep ++ "bad:assumption-layout live-ids-differ model=[" ++ " ".intercalate ownIds ++ "]")
+    else
+      let br := ["snap"] ++ (if l.length > 1 then ["snap-multi-segment"] else []) ++
+        (if l.any (fun (_, _, ids) => ids.any (·.2)) then ["snap-has-deleted"] else []) ++
+        (if l.isEmpty then ["snap-empty"] else [])
+      ({ st with layout := some l }, impl ++ sep ++ "ok br=" ++ ",".intercalate br)
+
 def c07step (st : DState) (op : String) (impl : String) : DState × String :=
   let ws := op.splitOn " "
   match ws with
   | "case" :: _ => (DState.empty, "ok" ++ sep ++ "na")
+  | ["snap"] => snapStep st impl
+  | "trace" :: _ => (st, traceStep st impl)
   | ["seg"] => (st.flush, "ok" ++ sep ++ "na")
   | "ins" :: id :: fs => ({ st with pendAdd := parseDoc id fs :: st.pendAdd }, "ok" ++ sep ++ "na")
   | "upd" :: id :: fs => ({ st with pendDel := id :: st.pendDel, pendAdd := parseDoc id fs :: st.pendAdd }, "ok" ++ sep ++ "na")
